@@ -54,6 +54,15 @@ CLAIMED = {
          "over all subsets of 12 candidate names, load-order independence over all permutations of small header sets. Known finding (open): a "
          "revision-less module and a revisioned one of the same name are order-dependent. Not decided: include == inline."),
    ref="8 (C13)"),
+ "C17": dict(
+   text=("Deductive proof of per-step contracts on Entry.Find for every path length: each iteration moves exactly as the step function taken from the "
+         "statement says ('.' stays, '..' parent, below an rpc only input/output, elsewhere the child filed under the unprefixed step), an early nil "
+         "return happens only when the step names nothing, existing input/output entries are never replaced, lazily created ones are linked to the rpc "
+         "entry, the rest of the tree is untouched; getPrefix, module and FindModuleByPrefix (own/empty prefix => own module, unknown prefix => nil) "
+         "against functional contracts. Assumed: processed-tree shape (acyclic parents, roots made from modules), AST import statements carry prefixes, "
+         "loading an imported module leaves existing trees alone. Not decided: the path<->node round trip as one theorem (induction over C04's tree "
+         "invariant, on paper), the result of ToEntry for a foreign module."),
+   ref="8 (C17)"),
 }
 
 NOT_REACHED = {}
